@@ -119,6 +119,8 @@ func main() {
 		fmt.Printf("TOTAL units=%d obligations=%d not-discharged=%d load=%.1fs wall=%.1fs\n", len(results), total, bad, loadS, time.Since(t0).Seconds())
 	case "owners":
 		e.dumpOwners()
+	case "declare":
+		e.declare()
 	case "audit":
 		// dead-path audit: which checked paths are unreachable under the hypotheses
 		names := fs.Args()
